@@ -75,6 +75,15 @@ StdPre(id) == CASE id = "E1" -> BasePre
 StdPost(id) == CASE id = "E1c" -> <<"U_GPOLY">>
                  [] id = "E1d" -> <<"U_GLIST", "U_GPOLY", "U_GNUM">>
                  [] OTHER -> <<>>
+\* the property speaks about numbers that are identical or differ by more than the comparison tolerance
+LitNum(e) == IF e.k = "num" THEN e.v
+             ELSE IF e.k = "call" /\ e.f.k = "id" /\ e.f.n = N_minus /\ Len(e.args) = 1 /\ e.args[1].k = "num" THEN NumNeg(e.args[1].v)
+             ELSE [k |-> "none"]
+InBandPair(e) == e.k = "list" /\ Len(e.els) >= 5 /\ e.els[1].k = "call" /\ Len(e.els[1].args) = 2
+                 /\ e.els[1].args[1].k = "list" /\ e.els[1].args[2].k = "list"
+                 /\ Len(e.els[1].args[1].els) = 1 /\ Len(e.els[1].args[2].els) = 1
+                 /\ LET x == LitNum(e.els[1].args[1].els[1]) y == LitNum(e.els[1].args[2].els[1]) IN
+                    x.k # "none" /\ y.k # "none" /\ x # y /\ Near(x, y) # "no"
 \* a universe element is a tree (standard environment E1) or a tree with its environment id
 InEnvId(e, id) == [e |-> e, envid |-> id]
 
